@@ -6,10 +6,11 @@ rm -rf $W; mkdir -p /tmp/seedrun
 git -C /repo worktree prune; git -C /repo worktree add -q --detach $W HEAD || exit 2
 git -C $W apply /verif/seeded/$S/patch.diff || { echo "patch does not apply"; exit 2; }
 cd /verif
+rm -rf /tmp/seedrun/_keep && mkdir -p /tmp/seedrun/_keep && cp -r /verif/evidence /verif/ledger /tmp/seedrun/_keep/
 for P in "$@"; do
   PYVC_REPO=$W ./vcheck $P --tier quick > /tmp/seedrun/$S.$P.log 2>&1; RC=$?
   echo "seed $S vs $P: exit $RC; $(grep -c '^VIOLATION' /tmp/seedrun/$S.$P.log) VIOLATION line(s)"
   grep -m2 -B1 '^VIOLATION' /tmp/seedrun/$S.$P.log | cut -c1-300
 done
 git -C /repo worktree remove --force $W
-git -C /verif checkout -q -- evidence ledger 2>/dev/null
+cp -r /tmp/seedrun/_keep/evidence/. /verif/evidence/; cp -r /tmp/seedrun/_keep/ledger/. /verif/ledger/; rm -rf /tmp/seedrun/_keep
